@@ -13,8 +13,7 @@ labelled streams (`gen_finding`), one known defect shape each:
                  field), nested-leaf (struct port with a nested-struct / list field in output direction), struct-wire (struct
                  wire written by field and read whole or vice versa), comp-array (list of sub-components with a struct input)
    F17 (verilog) for loop with a negative step that does not land on the bound (unsigned loop variable wraps)
-   F23 (yosys)   truncating BitsN() cast (the PyMTL simulation of such a design raises): `( a + b )[3:0]`, `3'(i)[1:0]` are not legal text
-regression streams (`gen_fixed`): the shapes of defects repaired by fix: commits (F15, F16, F16b, F18, F19, F20, F21, F22); expected clean.
+regression streams (`gen_fixed`): the shapes of defects repaired by fix: commits (F15, F16, F16b, F18, F19, F20, F21, F22, F23); expected clean.
 """
 import math
 
@@ -806,12 +805,12 @@ FINDING_STREAMS = {
   # id -> (backends, expected violation kinds)
   F10: (('yosys',), ('multi-driver', 'undriven', 'output-mismatch')),
   F17: (('verilog',), ('loop-overrun', 'output-mismatch')),
-  F23: (('yosys',), ('syntax-invalid',)),
 }
 FIXED_STREAMS = {
   # shapes of repaired defects: ordinary clean cases now
   F15: ('yosys', 'verilog'), F16: ('verilog', 'yosys'), F16B: ('verilog', 'yosys'), F18: ('verilog', 'yosys'), F19: ('yosys', 'verilog'),
   F20: ('yosys', 'verilog'), F21: ('verilog', 'yosys'), F22: ('yosys', 'verilog'),
+  F23: ('yosys', 'verilog'),     # the PyMTL simulation of these designs raises: only the validity of the emitted text is checked
 }
 
 def _hdr(): return ['from pymtl3 import *', '']
